@@ -198,16 +198,21 @@ type c18Insert struct {
 }
 
 type c18Hist struct {
-	r   *verifkit.Reporter
-	fx  *c18Fixture
-	fw  *Firewall
-	cfg struct {
+	r    *verifkit.Reporter
+	fx   *c18Fixture
+	ifc  *Interface // the packets go to ifc.firewall, reloads through conf -> ifc.reloadFirewall
+	conf *config.C
+	cfg  struct {
 		to      c18Timeouts
 		cacheD  time.Duration
 		ruleSet int
 		yaml    string
+		action  string // firewall.inbound_action: changing it changes the section, not the rules
+		extra   bool   // two more rules that allow none of the history's packets
 	}
-	rules     []c18Rule
+	base      []c18Rule
+	rules     []c18Rule // base (+ the extra rules when installed)
+	reloads   []time.Time
 	t0        time.Time
 	cIn, cOut *firewall.ConntrackCacheTicker
 	flows     map[firewall.Packet]*c18Flow
@@ -244,12 +249,76 @@ func (h *c18Hist) replay(what string) any {
 	}
 }
 
+// c18ExtraRules are added/removed by the "direction-preserving" reload: the rule set changes, but no packet of
+// any history uses port 9999, so every flow's original direction stays exactly as allowed as it was.
+var c18ExtraRules = []c18Rule{{true, firewall.ProtoTCP, 9999, "any", ""}, {false, firewall.ProtoUDP, 9999, "any", ""}}
+
+func (h *c18Hist) render() string {
+	h.rules = append([]c18Rule(nil), h.base...)
+	if h.cfg.extra {
+		h.rules = append(h.rules, c18ExtraRules...)
+	}
+	var sb strings.Builder
+	fmt.Fprintf(&sb, "firewall:\n  inbound_action: %s\n  conntrack:\n    tcp_timeout: %v\n    udp_timeout: %v\n    default_timeout: %v\n", h.cfg.action, h.cfg.to.tcp, h.cfg.to.udp, h.cfg.to.def)
+	for _, in := range []bool{false, true} {
+		name, n := "outbound", 0
+		if in {
+			name = "inbound"
+		}
+		var body strings.Builder
+		for _, ru := range h.rules {
+			if ru.in == in {
+				body.WriteString(ru.yaml())
+				n++
+			}
+		}
+		if n == 0 {
+			fmt.Fprintf(&sb, "  %s: []\n", name)
+		} else {
+			fmt.Fprintf(&sb, "  %s:\n%s", name, body.String())
+		}
+	}
+	h.cfg.yaml = sb.String()
+	return h.cfg.yaml
+}
+
+// reload installs a new firewall through the real config reload path. Both kinds keep every flow's original
+// direction allowed and keep the timeouts: by the statement nothing about any flow's expiry may change.
+func (h *c18Hist) reload(kind string) {
+	switch kind {
+	case "rule-preserving":
+		h.cfg.action = map[string]string{"drop": "reject", "reject": "drop"}[h.cfg.action]
+	case "direction-preserving":
+		h.cfg.extra = !h.cfg.extra
+	}
+	old := h.ifc.firewall
+	text := h.render()
+	var err error
+	if h.r.Guard("C18/panic", func() any { return h.replay("reload " + kind) }, func() { err = h.conf.ReloadConfigString(text) }) {
+		h.bad = true
+		return
+	}
+	if err != nil || h.ifc.firewall == old {
+		h.r.Inconclusive(fmt.Sprintf("C18 reload %s was not applied (err=%v)", kind, err))
+		h.bad = true
+		return
+	}
+	h.reloads = append(h.reloads, time.Now())
+	h.steps = append(h.steps, fmt.Sprintf("t=%v reload[%s] inbound_action=%s extra-rules=%v -> rulesVersion %d", h.off(), kind, h.cfg.action, h.cfg.extra, h.ifc.firewall.rulesVersion))
+	h.r.Count("reloads", 1)
+}
+
 // classifyStale names the witness class of an illegitimate pass of an expired flow.
 func (h *c18Hist) classifyStale(fl *c18Flow, now time.Time, viaCache bool) string {
 	if viaCache {
 		return "C18/stale-flow-honoured-via-routine-cache-beyond-one-tick"
 	}
 	deadline := fl.lastSeen.Add(fl.t)
+	for _, at := range h.reloads {
+		if at.After(deadline) {
+			return "C18/expired-flow-revived-by-reload"
+		}
+	}
 	gran := deadline.Add(2 * h.cfg.to.min())
 	anyAfter := false
 	for _, in := range h.inserts {
@@ -295,7 +364,7 @@ func (h *c18Hist) send(p firewall.Packet, incoming bool, peer *c18Peer, why stri
 	}
 	step := fmt.Sprintf("t=%v %s %s %s", h.off(), why, dir, c18Tuple(p))
 	if r.Guard("C18/panic", func() any { return h.replay(step) }, func() {
-		err = h.fw.Drop(p, incoming, peer.h, h.fx.caPool, cache)
+		err = h.ifc.firewall.Drop(p, incoming, peer.h, h.fx.caPool, cache)
 	}) {
 		h.bad = true
 		return
@@ -395,6 +464,12 @@ func (h *c18Hist) send(p firewall.Packet, incoming bool, peer *c18Peer, why stri
 		default:
 			if zone == "stale" {
 				r.Count("stale_dropped", 1)
+				for _, at := range h.reloads {
+					if at.After(fl.lastSeen.Add(fl.t)) {
+						r.Count("stale_dropped_after_reload", 1)
+						break
+					}
+				}
 				// did the drop need the wheel? (expiry that works on the unfixed tree)
 				if c := h.classifyStale(fl, now, false); c != "C18/idle-flow-honoured-without-wheel-advance" {
 					r.Count("stale_dropped_after_churn", 1)
@@ -485,38 +560,23 @@ func c18RunHistory(r *verifkit.Reporter, fx *c18Fixture, idx int, forced *c18For
 	if forced != nil {
 		h.cfg.to, h.cfg.ruleSet, h.cfg.cacheD = forced.to, 0, 0
 	}
-	h.rules = c18RuleSets[h.cfg.ruleSet]
-	var sb strings.Builder
-	fmt.Fprintf(&sb, "firewall:\n  conntrack:\n    tcp_timeout: %v\n    udp_timeout: %v\n    default_timeout: %v\n", h.cfg.to.tcp, h.cfg.to.udp, h.cfg.to.def)
-	for _, in := range []bool{false, true} {
-		if in {
-			sb.WriteString("  inbound:\n")
-		} else {
-			sb.WriteString("  outbound:\n")
-		}
-		n := 0
-		for _, ru := range h.rules {
-			if ru.in == in {
-				sb.WriteString(ru.yaml())
-				n++
-			}
-		}
-		if n == 0 {
-			sb.WriteString("    []\n")
-		}
-	}
-	h.cfg.yaml = strings.Replace(sb.String(), ":\n    []\n", ": []\n", -1)
-	c := config.NewC(fx.l)
-	if err := c.LoadString(h.cfg.yaml); err != nil {
+	h.base = c18RuleSets[h.cfg.ruleSet]
+	h.cfg.action = "drop"
+	h.conf = config.NewC(fx.l)
+	if err := h.conf.LoadString(h.render()); err != nil {
 		r.Inconclusive("C18 config did not parse: " + err.Error())
 		return
 	}
-	fw, err := NewFirewallFromConfig(fx.l, &CertState{v2Cert: fx.nodeCert}, c)
+	pki := &PKI{l: fx.l}
+	pki.cs.Store(&CertState{v2Cert: fx.nodeCert})
+	pki.caPool.Store(fx.caPool)
+	fw, err := NewFirewallFromConfig(fx.l, pki.getCertState(), h.conf)
 	if err != nil {
 		r.Inconclusive("C18 firewall config refused: " + err.Error())
 		return
 	}
-	h.fw = fw
+	h.ifc = &Interface{l: fx.l, pki: pki, firewall: fw}
+	h.conf.RegisterReloadCallback(h.ifc.reloadFirewall)
 	r.Pre("C18 history #%d (regenerate with this VERIF_SEED)\nconfig:\n%s\nroutine cache tick: %v", idx, h.cfg.yaml, h.cfg.cacheD)
 	if fw.TCPTimeout != h.cfg.to.tcp || fw.UDPTimeout != h.cfg.to.udp || fw.DefaultTimeout != h.cfg.to.def {
 		r.Violation("C18/configured-timeouts-not-applied", "firewall.conntrack.* timeouts differ from the configured values", h.replay(fmt.Sprint(fw.TCPTimeout, fw.UDPTimeout, fw.DefaultTimeout)))
@@ -541,7 +601,7 @@ func c18RunHistory(r *verifkit.Reporter, fx *c18Fixture, idx int, forced *c18For
 		var ru c18Rule
 		var peer *c18Peer
 		for {
-			ru = h.rules[rng.IntN(len(h.rules))]
+			ru = h.base[rng.IntN(len(h.base))]
 			peer = fx.peers[rng.IntN(len(fx.peers))]
 			if ru.matchesPeer(peer) && !(churn && ru.proto == firewall.ProtoTCP && rng.IntN(2) == 0) {
 				break
@@ -647,6 +707,12 @@ func c18RunHistory(r *verifkit.Reporter, fx *c18Fixture, idx int, forced *c18For
 				}
 				h.ctx = save
 			}
+			if rl := rng.IntN(6); rl < 2 && !h.bad {
+				// a reload that keeps every flow's original direction allowed, as the last thing before the packet
+				kind := []string{"rule-preserving", "direction-preserving"}[rl]
+				h.reload(kind)
+				h.ctx += " reload=" + kind
+			}
 			if h.bad {
 				break
 			}
@@ -706,10 +772,11 @@ func c18RunHistory(r *verifkit.Reporter, fx *c18Fixture, idx int, forced *c18For
 // ---------- scripted witnesses (the probe's history, and its counterpart with churn) ----------
 
 type c18Forced struct {
-	name  string
-	to    c18Timeouts
-	idle  time.Duration
-	churn bool
+	name   string
+	to     c18Timeouts
+	idle   time.Duration
+	churn  bool
+	reload string // "" or a reload kind done after the silence, right before the reply
 }
 
 func c18RunForced(h *c18Hist, f *c18Forced) {
@@ -732,7 +799,11 @@ func c18RunForced(h *c18Hist, f *c18Forced) {
 			h.send(cf[i%3], false, fx.peers[1], "unrelated-lookup")
 		}
 	}
+	if f.reload != "" {
+		h.reload(f.reload)
+	}
 	h.send(flow, true, peer, "reply")
+	h.send(flow, true, peer, "reply-again")
 	h.r.Count("scripted_histories", 1)
 }
 
@@ -740,15 +811,20 @@ func c18RunForced(h *c18Hist, f *c18Forced) {
 
 func TestVerifC18Scripted(t *testing.T) {
 	r := verifkit.NewReporter(t, "C18", "scripted",
-		"fixed witnesses: one UDP flow (3 s timeout), reply after 1 s / 60 s of silence, with and without unrelated new flows in between; distinct = (history, packet class) pairs")
+		"fixed witnesses: one UDP flow (3 s timeout), reply after 1 s / 4 s / 60 s of silence, with and without unrelated new flows in between, with and without a reload (rule-preserving / direction-preserving, through the real reloadFirewall) right before the reply; distinct = (history, packet class) pairs")
 	defer r.Done()
 	fx := c18NewFixture()
 	to := c18Timeouts{12 * time.Second, 3 * time.Second, 10 * time.Second}
 	for i, f := range []*c18Forced{
-		{"idle-1s-no-churn", to, time.Second, false},
-		{"idle-60s-no-churn", to, 60 * time.Second, false},
-		{"idle-60s-churn", to, 60 * time.Second, true},
-		{"idle-1s-churn", to, time.Second, true},
+		{"idle-1s-no-churn", to, time.Second, false, ""},
+		{"idle-60s-no-churn", to, 60 * time.Second, false, ""},
+		{"idle-60s-churn", to, 60 * time.Second, true, ""},
+		{"idle-1s-churn", to, time.Second, true, ""},
+		{"idle-60s-then-rule-preserving-reload", to, 60 * time.Second, false, "rule-preserving"},
+		{"idle-60s-then-direction-preserving-reload", to, 60 * time.Second, false, "direction-preserving"},
+		{"idle-4s-then-rule-preserving-reload", to, 4 * time.Second, false, "rule-preserving"},
+		{"idle-1s-then-rule-preserving-reload", to, time.Second, false, "rule-preserving"},
+		{"idle-1s-then-direction-preserving-reload", to, time.Second, true, "direction-preserving"},
 	} {
 		synctest.Test(t, func(t *testing.T) { c18RunHistory(r, fx, i, f) })
 	}
@@ -756,7 +832,7 @@ func TestVerifC18Scripted(t *testing.T) {
 
 func TestVerifC18Histories(t *testing.T) {
 	r := verifkit.NewReporter(t, "C18", "hist",
-		"PRNG histories in a synctest bubble: 1-8 flows x 2 peers (tcp/udp/icmp, outbound-first and inbound-first) against the real Firewall built from a generated config with small conntrack timeouts; idle gaps {0,T/2,T-eps,T,T+eps,3T,100T} per flow, with/without unrelated new flows and lookups (what moves the timer wheel), with/without per-direction routine caches (real ConntrackCacheTicker, tick boundaries hit exactly), near-miss tuples; distinct = (protocol, direction, cache mode, model zone, gap class, churn mode, verdict, cache hit) classes")
+		"PRNG histories in a synctest bubble: 1-8 flows x 2 peers (tcp/udp/icmp, outbound-first and inbound-first) against the real Firewall built from a generated config with small conntrack timeouts; idle gaps {0,T/2,T-eps,T,T+eps,3T,100T} per flow, with/without unrelated new flows and lookups (what moves the timer wheel), with/without per-direction routine caches (real ConntrackCacheTicker, tick boundaries hit exactly), with/without a rule-preserving or direction-preserving reload through the real reloadFirewall right before the probed packet, near-miss tuples; distinct = (protocol, direction, cache mode, model zone, gap class, churn mode, verdict, cache hit) classes")
 	defer r.Done()
 	fx := c18NewFixture()
 	n := verifkit.Scale(5000, 500000)
